@@ -336,6 +336,70 @@ def run(ctx):
                 r.bad("has_matched|" + fn_.name, "%s can deliver a match without recording has_matched" % fn_.name, fn=fn_,
                       construct="has_matched")
 
+    with ctx.rule("C03.LIVE", "no spurious stop: while every callee/sink says keep going, a routine stops only for a listed reason",
+                  floor=20, kind="A3") as r:
+        from . import c16
+        K = c16.producers(facts)
+        CONT = {}
+        for k_, (txt, val, _) in K.items():
+            if val == V("Ok", I(0)):
+                CONT[k_] = V("Ok", I(1))
+            elif k_.endswith("::detect_binary"):
+                CONT[k_] = V("Ok", I(0))
+            elif k_.endswith("::match_by_line_fast"):
+                CONT[k_] = V("Ok", V("Continue"))
+        # listed legitimate stop reasons (function suffix -> predicate on the guarding condition), one line each
+        ALLOWED = {
+            "Core::match_by_line_slow": [lambda e: mentions_field(e, SCFG, "stop_on_nonmatch")],     # --stop-on-nonmatch
+            "Core::match_by_line": [lambda e: True],                                                   # maps FastMatchResult
+            "Core::detect_binary": [lambda e: True],                                                   # answers quit_byte().is_some()
+            "MultiLine::sink_matched": [lambda e: is_call(e, RANGE + "::is_empty")],                   # empty final range
+            "MultiLine::sink": [lambda e: False],
+            "ReadByLine::fill": [lambda e: mentions_call(e, "grep_searcher::line_buffer::LineBufferReader::fill")  # EOF
+                                 or is_call(e, "grep_searcher::searcher::glue::ReadByLine::should_binary_quit")     # binary quit
+                                 or (e.k == "bin" and mentions_call(e, CORE + "::roll"))],                        # no progress
+            "Core::match_by_line_fast": [lambda e: mentions_field(e, SCFG, "stop_on_nonmatch")],       # SwitchToSlow is not a stop
+        }
+        for path in sorted(K):
+            g = facts.fns.get(path)
+            if g is None or g.kind == "closure":
+                continue
+            txt, stopv, _ = K[path]
+
+            def model(call, argv):
+                for n in call.names:
+                    if n in CONT:
+                        return CONT[n]
+                return None
+            sx = Sccp(g, call_model=model).run([(0, {})])
+            ebg = ExprBuilder(g)
+            preds = []
+            for suf, ps in ALLOWED.items():
+                if path.endswith("::" + suf):
+                    preds = ps
+            allowed_sw = cond_switches(g, lambda e: any(p_(e) for p_ in preds), ebg) if preds else []
+            removed = set()
+            for s_ in allowed_sw:
+                removed.add(s_[1]); removed.add(s_[2])
+            unexplained = C.reach(g, [0], removed_edges=removed)
+            bad = []
+            for b_, v_ in sx.ret_values.items():
+                for x in value_set(v_):
+                    if x == stopv:
+                        # where was _0 given that value: the assigning blocks that are executable and reach b_
+                        srcs = [bb for bb, j, st in g.stmts() if bb in sx.exec_blocks and st["k"] == "assign" and st["place"]["l"] == 0
+                                and not st["place"]["p"] and sx._rvalue(sx.env_in.get(bb, {}), st["rv"]) == stopv]
+                        for sb in srcs:
+                            if sb in unexplained:
+                                bad.append(sb)
+            key = path.split("::")[-2] + "::" + path.split("::")[-1]
+            if bad:
+                loc = g.blocks[bad[0]]["stmts"][-1]["loc"] if g.blocks[bad[0]]["stmts"] else g.loc
+                r.bad(key, "%s can answer %s although every callee and the sink said keep going and no listed stop reason applies "
+                      "(results after this point would be lost)" % (key, txt), fn=g, loc=loc, construct="live")
+            else:
+                r.ok(key, "all-continue ⇒ no unexplained %s" % txt, fn=g)
+
     with ctx.rule("C03.WINDOW", "before-context starts at the last visited line; after-context stops when none is owed", floor=2,
                   kind="FLOW/A3") as r:
         f = facts.fn(CORE + "::before_context_by_line")
